@@ -51,6 +51,10 @@ class Intern:
         return b.hex() if b else '-'
 
 
+class FinishBoom(Exception):
+    """injected: the wrapped storage's tpc_finish raises before doing anything"""
+
+
 def errname(e):
     from ZODB.POSException import (ConflictError, POSKeyError, StorageTransactionError, UndoError,
                                    MultipleUndoErrors)
@@ -281,6 +285,8 @@ class Env:
                     except Exception as e:
                         out, exc = errname(e), e
                     line = ctx(res, exc)
+                    if name == 'tpc_finish' and isinstance(exc, FinishBoom):
+                        out, line = 'ok', 'nop'      # nothing happened: the transaction is still in progress
                     if name == 'pack' and exc is not None:
                         # whether a pack succeeds is C07/C08's subject (e.g. MappingStorage refuses a pack
                         # time before an earlier one); a pack that raised did not reach the blob step
@@ -445,6 +451,19 @@ class Env:
         finally:
             self.depth -= 1
         return True
+
+    def fail_next_finish(self):
+        """failure point 'finish phase' for the wrapper: the wrapped storage's tpc_finish raises before
+        making anything durable (the transaction is not committed; the caller aborts it)"""
+        base = self.base
+
+        def boom(*a, **kw):
+            base.__dict__.pop('tpc_finish', None)
+            raise FinishBoom('wrapped storage tpc_finish fails')
+        base.tpc_finish = boom
+
+    def clear_finish_failure(self):
+        self.base.__dict__.pop('tpc_finish', None)
 
     def _cur_tid(self, oid):
         try:
